@@ -219,7 +219,9 @@ func (api *API) encodeStructFields(
 			fieldType := sField.fType
 			if fieldValue.Kind() == reflect.Ptr {
 				if fieldValue.IsNil() {
-					continue
+					// the fields of an embedded struct are always expected by decodeStructFields:
+					// skipping them here would produce bytes that decode to a different value (or not at all)
+					return ierrors.Errorf("unexpected nil pointer for embedded struct %s", sField.name)
 				}
 				fieldValue = fieldValue.Elem()
 				fieldType = fieldType.Elem()
